@@ -376,6 +376,9 @@ def scanBlock (P : Params) (cb : Nat → CbRet) (set : Settings) (b : Block) (c 
   | none => (c, w, [], .success)
   | some d =>
     let c := if c.entryPoint.isNone then { c with entryPoint := P.ep set.processMemory d b.size b.base } else c
+    -- `_yr_scanner_scan_mem_block` starts by clearing unconfirmed_matches (/repo 173a2ea): pieces of a chained string found in a
+    -- previous block are never combined with pieces of this one
+    let c := { c with unconfirmed := [] }
     if decide (b.size > 0) && timedOut set c w then (c, w, [], .scanTimeout)
     else
       match P.scanErr d with
